@@ -45,6 +45,7 @@ FLOORS = {
     "quick": {"evaluations": 3000, "distinct": 300,
               "counters": dict({"fingerprint_checks": 1500, "repeat_compares": 1500, "thread_renders": 1500,
                                 "yield_injections": 500, "stateful_templates": 50, "autoescape_cases": 90,
+                                "late_template_globals_steps": 16,
                                 "matrix_templates": 300, "matrix_renders": 9000, "matrix_renders_ok": 1500},
                                **{"matrix_renders:" + f: 1200 for f in _FLAVOURS},
                                **{"matrix_source:" + f: 3000 for f in _SRC})},
@@ -52,6 +53,7 @@ FLOORS = {
                  "counters": dict({"fingerprint_checks": 30000, "repeat_compares": 30000,
                                    "thread_renders": 40000, "yield_injections": 20000,
                                    "stateful_templates": 1000, "autoescape_cases": 1000,
+                                   "late_template_globals_steps": 16,
                                    "matrix_templates": 1000, "matrix_renders": 70000, "matrix_renders_ok": 12000},
                                   **{"matrix_renders:" + f: 10000 for f in _FLAVOURS},
                                   **{"matrix_source:" + f: 12000 for f in _SRC})},
@@ -173,6 +175,49 @@ def importer_globals_check(ctx):
                                   f"importer loaded with globals k={val!r} rendered {o!r}, alone {want[val]!r} (order {order}) | {srcs}",
                                   {"kind": "importer-globals"})
                     break
+
+
+def late_globals_check(ctx):
+    """Template-level globals that arrive AFTER a template was loaded (documented:
+    get_template(name, globals=...) on a cache hit updates that template's globals; so does
+    template.globals[...] = ...) stay with that template: environment globals are untouched and
+    other templates render as they do alone."""
+    import jinja2
+
+    srcs = {"a": "{{ k|default('-') }}", "b": "[{{ k|default('-') }}]"}
+    for how in ("get_template-cache-hit", "template.globals-setitem", "from_string", "Template()"):
+        if how == "Template()":
+            mk = lambda src: jinja2.Template(src)
+            env = mk("x").environment
+        else:
+            env = jinja2.Environment(loader=jinja2.DictLoader(srcs))
+            mk = env.from_string
+        before = fp(dict(env.globals))
+        if how == "get_template-cache-hit":
+            first = util.capture(lambda: env.get_template("a").render())
+            second = util.capture(lambda: env.get_template("a", globals={"k": "late"}).render())
+            other = util.capture(lambda: env.get_template("b").render())
+        else:
+            t = env.get_template("a") if how == "template.globals-setitem" else mk(srcs["a"])
+            first = util.capture(lambda: t.render())
+            t.globals["k"] = "late"
+            second = util.capture(lambda: t.render())
+            other = util.capture(lambda: (env.get_template("b") if how == "template.globals-setitem"
+                                          else mk(srcs["b"])).render())
+        ctx.ev(3)
+        ctx.count("late_template_globals_steps")
+        after = fp(dict(env.globals))
+        got = (outcome_of(first), outcome_of(second), outcome_of(other))
+        if got != (("ok", "-"), ("ok", "late"), ("ok", "[-]")) or before != after:
+            ctx.violation("state:late-template-globals:" + how,
+                          f"renders (before, after adding template global k, other template) = {got}, expected "
+                          f"'-', 'late', '[-]'; environment globals changed: {before != after} ({sorted(env.globals)})",
+                          {"kind": "late-globals"})
+        env.globals.pop("k", None)   # the spontaneous environment of Template() is process-wide
+
+
+def outcome_of(o):
+    return ("ok", o.value) if o.ok else ("exc", type(o.exc).__name__)
 
 
 # ---------------------------------------------------------------------------
@@ -491,6 +536,7 @@ def run(ctx):
     i = 0
     pool = []
     importer_globals_check(ctx)
+    late_globals_check(ctx)
     check_filter_matrix(ctx, ctx.rng("c29-matrix"))
     while ctx.more(i, n, floor=60):
         if i % 6 == 5:
